@@ -10,6 +10,6 @@ const (
 	// Aof rewrite (compaction): 5 rewriteAofFiles entered, 6 rewrite.aof.tmp written and closed, 7 an input file
 	// removed, 8 its .dat removed, 9 tmp renamed to rewrite.aof, 10 tmp.dat renamed, 11 RewriteAofFile closed the
 	// old append file, 12 RewriteAofFile opened the new one, 14 rewriteAofFiles returned
-	verifPointAofRewrite = 5
+	verifPointAofRewrite    = 5
 	verifPointAofFlushStart = 20 // AofFile.Flush: records are buffered, nothing has been written yet
 )
